@@ -326,6 +326,14 @@ class Engine(ExprMixin, CallMixin):
         self.assign(tgt, v, st, stmt)
         return [Outcome("normal", st)]
 
+    def st_AnnAssign(self, stmt, st):
+        # annotations are dropped by the extraction; the assignment itself is kept
+        if stmt.value is None:
+            return [Outcome("normal", st)]
+        a = ast.Assign(targets=[stmt.target], value=stmt.value)
+        ast.copy_location(a, stmt)
+        return self.st_Assign(ast.fix_missing_locations(a), st)
+
     def local_type(self, name, st):
         if self.cur is not None and name in self.cur.locals:
             return self.cur.locals[name]
@@ -640,6 +648,10 @@ class Engine(ExprMixin, CallMixin):
                 f = node.func
                 if isinstance(f, ast.Attribute) and f.attr in MUTATORS:
                     mark(base_name(f.value))
+                if isinstance(f, ast.Name):
+                    bv_ = st.env.get(f.id)
+                    if isinstance(bv_, FuncVal) and bv_.kind == "bound" and bv_.info.attr in MUTATORS:
+                        mark(base_name(bv_.info.value))
                 fname = ast.unparse(f)
                 c = self.lookup_contract_for_call(fname, st)
                 if c is not None:
